@@ -242,7 +242,9 @@ func C19(rep *ev.Reporter, tier string) {
 		}
 	})
 	// ---- strings ----
-	strs := []string{"", "a", "A", "ab", "b", "é", "\x00", "a\x00", "aa"}
+	// incl. text that is not valid UTF-8 (Latin-1 bytes, a multi-byte character cut in the middle, binary keys) and
+	// characters beyond the basic plane: strings are ordered byte-wise
+	strs := []string{"", "a", "A", "ab", "b", "é", "\x00", "a\x00", "aa", "\xff", "\xfe", "caf\xe9", "caf\xe8", "\xe6\x97", "日本", "\ufffd", "😀", "z"}
 	for _, a := range strs {
 		for _, b := range strs {
 			for _, wp := range wrapPairs[:4] {
